@@ -128,6 +128,7 @@ var gates = map[int]*gate{}
 type gatedResult struct {
 	out  callOut
 	perr string
+	was  string // what the caller could read from the result when it was returned
 }
 
 func runGated(kA, kB string, k, m int, tok string) (ra, rb gatedResult, evA, evB int) {
@@ -149,9 +150,10 @@ func runGated(kA, kB string, k, m int, tok string) (ra, rb gatedResult, evA, evB
 				<-gt.resume
 			}
 			o, perr := safeCall(kind, tok)
-			*res = gatedResult{o, perr}
+			*res = gatedResult{out: o, perr: perr}
 			if perr == "" {
 				pt.ret(o.issues)
+				res.was = projHeld(o)
 			}
 		}()
 	}
@@ -182,7 +184,7 @@ func runGated(kA, kB string, k, m int, tok string) (ra, rb gatedResult, evA, evB
 	return ra, rb, ga.count, gb.count
 }
 
-var gatedKinds = []string{"plain", "ctxval", "probectx", "fail1", "fmtopt", "fail2", "coerce", "custom", "catch", "badjson", "nulljson", "vslice", "freshfail", "pterr"}
+var gatedKinds = []string{"plain", "ctxval", "probectx", "fail1", "fmtopt", "fail2", "coerce", "custom", "catch", "badjson", "nulljson", "vslice", "freshfail", "pterr", "list2", "listS", "primcatch", "vnesteddef", "tdestA", "tdestB"}
 
 func gatedEpisodes(r *rand.Rand, maxPairs int, stats map[string]int, distinct map[string]bool, samples *[]string) {
 	pairs := [][2]string{}
@@ -199,7 +201,7 @@ func gatedEpisodes(r *rand.Rand, maxPairs int, stats map[string]int, distinct ma
 	for _, pr := range pairs {
 		// how many pool operations each call performs when it runs alone
 		zi.ClearPools()
-		epFresh = newFresh()
+		epFresh, epTwo = newFresh(), newTwo()
 		pt.gids = map[int64]int{}
 		mark := len(pt.events)
 		pt.reset("measure")
@@ -213,7 +215,7 @@ func gatedEpisodes(r *rand.Rand, maxPairs int, stats map[string]int, distinct ma
 					continue
 				}
 				zi.ClearPools()
-				epFresh = newFresh()
+				epFresh, epTwo = newFresh(), newTwo()
 				pt.gids = map[int64]int{}
 				id := fmt.Sprintf("g%d", ep)
 				ep++
@@ -231,6 +233,13 @@ func gatedEpisodes(r *rand.Rand, maxPairs int, stats map[string]int, distinct ma
 					pt.events = append(pt.events, ev)
 					pt.mu.Unlock()
 				}
+				hs := []heldResult{}
+				for gi, res := range []gatedResult{ra, rb} {
+					if res.perr == "" {
+						hs = append(hs, heldResult{pr[gi], res.out, res.was})
+					}
+				}
+				recheckHeld(hs, 1, fmt.Sprintf("gated schedule %s|%s switch at A:%d B:%d", pr[0], pr[1], k, m))
 				pt.on = false
 				stats["episodes"]++
 				stats["probes"] += 2
@@ -301,6 +310,51 @@ func projIssues(m z.ZogIssueMap) (string, []*z.ZogIssue) {
 	return sb.String(), all
 }
 
+// everything a caller can still read from a result it keeps: every issue of every key ($first included), in order
+func projHeld(o callOut) string {
+	var sb strings.Builder
+	one := func(k string, i *z.ZogIssue) {
+		fmt.Fprintf(&sb, "[%s|path=%s|code=%s|type=%s|params=%v|msg=%s]", k, i.Path, i.Code, i.Dtype, i.Params, i.Message)
+	}
+	if o.m != nil {
+		keys := []string{}
+		for k := range o.m {
+			keys = append(keys, k)
+		}
+		sort.Strings(keys)
+		for _, k := range keys {
+			for _, i := range o.m[k] {
+				one(k, i)
+			}
+		}
+	}
+	for _, i := range o.l {
+		one("", i)
+	}
+	return sb.String()
+}
+
+type heldResult struct {
+	kind string
+	o    callOut
+	was  string
+}
+
+// results the caller did not hand back stay the caller's: they still read the same after any number of later calls
+func recheckHeld(held []heldResult, g int, where string) {
+	for _, h := range held {
+		now := projHeld(h.o)
+		same := now == h.was
+		ev := poolEvent{E: "probe", Kind: "held:" + h.kind, G: g, Same: &same}
+		if !same {
+			ev.Diff = fmt.Sprintf("%s: a result the caller kept changed afterwards: was %s now %s", where, h.was, now)
+		}
+		pt.mu.Lock()
+		pt.events = append(pt.events, ev)
+		pt.mu.Unlock()
+	}
+}
+
 var stalefmt = func(e *z.ZogIssue, c z.Ctx) { e.SetMessage("custom-formatter:" + e.Code) }
 
 var (
@@ -365,7 +419,32 @@ func jsonCall(body string, d *pdest) z.ZogIssueMap {
 	return schJSON.Parse(zhttp.Request(req), d)
 }
 
-var callKinds = []string{"nested", "nestedelem", "badjson", "nulljson", "okjson", "plain", "ctxval", "probectx", "fail1", "fmtopt", "fail2", "coerce", "custom", "catch",
+// one schema object serves any destination type that matches it: two types whose fields are declared in opposite order
+type twoA struct {
+	Name string
+	Nick string
+	N    int
+}
+type twoB struct {
+	N    int
+	Nick string
+	Name string
+}
+
+var epTwo *z.StructSchema
+
+func newTwo() *z.StructSchema {
+	return z.Struct(z.Schema{"name": z.String().Min(4), "nick": z.String().Max(2), "n": z.Int().GT(5)})
+}
+
+var (
+	schPanicNested = z.Struct(z.Schema{"a": z.Struct(z.Schema{"b": z.Slice(z.Int().TestFunc(func(v any, c z.Ctx) bool { panic("callback panics") }))})})
+	schNestedDef   = z.Slice(z.Slice(z.Int().PostTransform(func(p any, c z.Ctx) error { *(p.(*int)) *= 10; return nil }))).Default([][]int{{10, 20}, {30, 40}})
+)
+
+var schListStr = z.String().Min(5).Email()
+
+var callKinds = []string{"listS", "tdestA", "tdestB", "panicnested", "vnesteddef", "nested", "nestedelem", "badjson", "nulljson", "okjson", "plain", "ctxval", "probectx", "fail1", "fmtopt", "fail2", "coerce", "custom", "catch",
 	"vslice", "vptrcatch", "vptrnil", "pterr", "list2", "primcatch", "primcatchok", "stest", "pnotnil", "scoerce", "slicetest", "freshfail", "freshvalidate"}
 
 // a schema that is BUILT for the current episode and first used by the goroutines of that episode
@@ -406,6 +485,35 @@ func doCall(kind, tok string) callOut {
 		ctxSeenMu.Lock()
 		extra = ctxSeen[goid()]
 		ctxSeenMu.Unlock()
+	case "tdestA":
+		var da twoA
+		m = epTwo.Parse(map[string]any{"name": "abc", "nick": "nicky", "n": 1}, &da)
+		extra = fmt.Sprint(da)
+	case "tdestB":
+		var db twoB
+		m = epTwo.Parse(map[string]any{"name": "abc", "nick": "nicky", "n": 1}, &db)
+		vb := twoB{N: 1, Nick: "nicky", Name: "abc"}
+		m2 := epTwo.Validate(&vb)
+		p2, all2 := projIssues(m2)
+		if pt.on {
+			pt.ret(all2)
+		}
+		extra = fmt.Sprint(db, vb, p2)
+	case "panicnested":
+		// an execution that dies three levels deep in a user callback; the caller recovers (as net/http does)
+		func() {
+			defer func() {
+				if r := recover(); r != nil {
+					extra = fmt.Sprint("recovered: ", r)
+				}
+			}()
+			var dd struct{ A struct{ B []int } }
+			m = schPanicNested.Parse(map[string]any{"a": map[string]any{"b": []any{1, 2}}}, &dd)
+		}()
+	case "vnesteddef":
+		var s [][]int
+		m = schNestedDef.Validate(&s)
+		extra = fmt.Sprint(s)
 	case "nested":
 		m = schNested.Parse(map[string]any{"a": 5}, &d)
 		nestedSeenMu.Lock()
@@ -478,6 +586,15 @@ func doCall(kind, tok string) callOut {
 		fd := freshD{Name: "ab", Age: 3, Tags: []string{"ok", "z"}}
 		m = epFresh.Validate(&fd)
 		extra = fmt.Sprint(fd)
+	case "listS":
+		// a primitive used on its own returns a LIST of issues (two here), as list2 does with other contents
+		var sd string
+		l := schListStr.Parse("ab", &sd)
+		var sb strings.Builder
+		for _, i := range l {
+			fmt.Fprintf(&sb, "[path=%s|code=%s|type=%s|params=%v|value=%s|msg=%s|err=%v]", i.Path, i.Code, i.Dtype, i.Params, showVal(i.Value), i.Message, i.Err)
+		}
+		return callOut{proj: fmt.Sprintf("%s dest=%v nil=%v", sb.String(), sd, l == nil), issues: l, l: l}
 	case "list2":
 		var x int
 		l := schListTwo.Parse(1, &x)
@@ -526,7 +643,7 @@ var baseline = map[string]string{}
 func computeBaselines() {
 	for _, k := range callKinds {
 		zi.ClearPools()
-		epFresh = newFresh()
+		epFresh, epTwo = newFresh(), newTwo()
 		baseline[k] = doCall(k, "tok").proj
 	}
 }
@@ -580,16 +697,22 @@ func cmdPools(args []string) {
 	} else if *conc == 0 {
 		for hi, h := range hs {
 			zi.ClearPools()
-			epFresh = newFresh()
+			epFresh, epTwo = newFresh(), newTwo()
 			id := fmt.Sprintf("h%d", hi)
 			pt.on = true
 			pt.reset(id)
 			desc := []string{}
+			held := []heldResult{}
 			for ci, st := range h {
-				o := doCall(st.Kind, fmt.Sprintf("tok-%d-%d", hi, ci))
+				o, perr := safeCall(st.Kind, fmt.Sprintf("tok-%d-%d", hi, ci))
+				if perr != "" {
+					o = callOut{proj: "panicked: " + perr}
+				}
 				pt.ret(o.issues)
 				if st.Collect {
 					o.collect(hi + ci)
+				} else {
+					held = append(held, heldResult{st.Kind, o, projHeld(o)})
 				}
 				desc = append(desc, fmt.Sprintf("%s(collect=%v)", st.Kind, st.Collect))
 			}
@@ -597,7 +720,10 @@ func cmdPools(args []string) {
 			probes := append([]string{}, callKinds...)
 			r.Shuffle(len(probes), func(i, j int) { probes[i], probes[j] = probes[j], probes[i] })
 			for _, k := range probes {
-				o := doCall(k, "tok")
+				o, perr := safeCall(k, "tok")
+				if perr != "" {
+					o = callOut{proj: "panicked: " + perr}
+				}
 				pt.ret(o.issues)
 				same := o.proj == baseline[k]
 				ev := poolEvent{E: "probe", Kind: k, G: 1, Same: &same}
@@ -608,7 +734,11 @@ func cmdPools(args []string) {
 				pt.events = append(pt.events, ev)
 				pt.mu.Unlock()
 				stats["probes"]++
+				if len(held) < 6 {
+					held = append(held, heldResult{k, o, projHeld(o)})
+				}
 			}
+			recheckHeld(held, 1, "after ["+strings.Join(desc, ", ")+"] and the probes")
 			pt.on = false
 			stats["histories"]++
 			distinct[strings.Join(desc, ",")] = true
@@ -619,7 +749,7 @@ func cmdPools(args []string) {
 	} else {
 		for e := 0; e < *episodes; e++ {
 			zi.ClearPools()
-			epFresh = newFresh()
+			epFresh, epTwo = newFresh(), newTwo()
 			pt.gids = map[int64]int{}
 			pt.on = true
 			pt.reset(fmt.Sprintf("c%d", e))
@@ -646,6 +776,8 @@ func cmdPools(args []string) {
 					pt.mu.Unlock()
 					regMu.Unlock()
 					<-start
+					held := []heldResult{}
+					defer func() { recheckHeld(held, g+1, "concurrent episode") }()
 					for ci, st := range plans[g] {
 						o, perr := safeCall(st.Kind, fmt.Sprintf("tok-%d-%d-%d", e, g, ci))
 						if perr != "" {
@@ -668,6 +800,8 @@ func cmdPools(args []string) {
 						pt.mu.Unlock()
 						if st.Collect {
 							o.collect(ci)
+						} else {
+							held = append(held, heldResult{st.Kind, o, projHeld(o)})
 						}
 					}
 				}(g)
